@@ -684,6 +684,37 @@ Proof.
   split; [|exact Err]. rewrite Hfr by discriminate. exact Hrr.
 Qed.
 
+Lemma store_proof_over_receipt_spec d t l sb u g rc d' :
+  DbInv d -> dbm_store_misbehaving_proof_over_receipt d t l sb u g rc = DbOk d' ->
+  DbInv d' /\ (forall c, c <> T_misbehaving_proofs -> c <> T_appointment_receipts -> tbl d' c = tbl d c).
+Proof.
+  intros HI H. unfold dbm_store_misbehaving_proof_over_receipt in H.
+  destruct (db_update CS d T_appointment_receipts [l; t] _ false) as [d1|e] eqn:E1; [|discriminate].
+  pose proof (tbl_update CS d _ _ _ _ d1 E1) as [O1 [L1 T1]].
+  pose proof (tbl_insert CS d1 _ _ d' H) as [T2 [O2 L2]].
+  destruct HI as [Hok [Har [L Hrec]]].
+  assert (Hok1 : db_ok CS d1) by exact (update_preserves_ok CS d _ _ _ _ d1 CS_wf Hok E1).
+  assert (Hfr : forall c, c <> T_misbehaving_proofs -> c <> T_appointment_receipts -> tbl d' c = tbl d c).
+  { intros c H6 H5. rewrite O2 by exact H6. apply O1. exact H5. }
+  split; [|exact Hfr].
+  split; [exact (insert_preserves_ok CS d1 _ _ d' Hok1 H)|]. split.
+  { refine (exec_preserves_arity CS d1 (SInsert _ _) d' _ H). exact (exec_preserves_arity CS d (SUpdate _ _ _ _) d1 Har E1). }
+  split; [congruence|].
+  intros tr Htr. rewrite Hfr in Htr by discriminate. destruct (Hrec tr Htr) as [rr [Hrr Err]]. exists rr.
+  split; [|exact Err]. rewrite Hfr by discriminate. exact Hrr.
+Qed.
+
+Lemma flag_store_spec d t l sb u g rc d' :
+  DbInv d -> flag_store d t l sb u g rc = DbOk d' ->
+  DbInv d' /\ (forall c, c <> T_misbehaving_proofs -> c <> T_appointment_receipts -> tbl d' c = tbl d c).
+Proof.
+  intros HI. unfold flag_store. destruct (exists_misbehaving_proof d t).
+  - intros H. inversion H. subst d'. split; [exact HI|reflexivity].
+  - destruct (dbm_load_appointment_receipt d t l).
+    + apply store_proof_over_receipt_spec. exact HI.
+    + apply store_proof_spec. exact HI.
+Qed.
+
 (* store_tower_record *)
 Definition upd_tower (t addr slots : N) (r : row) : row :=
   if key_eqb (proj r (ts_pk (tsch CS T_towers))) [t]
@@ -1049,6 +1080,7 @@ Proof. intros [tr [rr H]]. exists tr, rr. exact H. Qed.
 Lemma Inv_set_status c t st : Inv c -> Inv (wt_set_tower_status c t st).
 Proof.
   intros [HD HM]. unfold wt_set_tower_status. destruct (aget (c_towers c) t) as [s|] eqn:E; [|split; assumption].
+  destruct (is_misbehaving (su_status s) && negb (is_misbehaving st)); [split; assumption|].
   split; [exact HD|]. intros Hp. specialize (HM Hp).
   apply (MemInv_aset c _ t (su_with_status s st)); auto.
   apply summary_matches_status. apply HM. exact E.
@@ -1179,9 +1211,9 @@ Lemma Inv_flag_misbehaving c t l sb u g rc :
   Inv c -> c_poisoned c = false -> Inv (fst (wt_flag_misbehaving_tower c t l sb u g rc)).
 Proof.
   intros HI Hp. unfold wt_flag_misbehaving_tower. destruct (aget (c_towers c) t) as [s|] eqn:E; [|exact HI].
-  destruct (dbm_store_misbehaving_proof (c_db c) t l sb u g rc) as [d'|e] eqn:Es; cbn [fst]; [|apply Inv_poison; exact HI].
+  destruct (flag_store (c_db c) t l sb u g rc) as [d'|e] eqn:Es; cbn [fst]; [|apply Inv_poison; exact HI].
   destruct HI as [HD HM]. specialize (HM Hp).
-  destruct (store_proof_spec _ _ _ _ _ _ _ _ HD Es) as [HD' Hfr].
+  destruct (flag_store_spec _ _ _ _ _ _ _ _ HD Es) as [HD' Hfr].
   assert (Hext : forall k s0, summary_matches (c_db c) k s0 -> summary_matches d' k s0).
   { intros k s0. apply summary_matches_ext; apply Hfr; discriminate. }
   split; [exact HD'|]. intros _.
@@ -1660,8 +1692,8 @@ Qed.
 Lemma DbInv_flag c t l b u g rc : DbInv (c_db c) -> DbInv (c_db (fst (wt_flag_misbehaving_tower c t l b u g rc))).
 Proof.
   intros HD. unfold wt_flag_misbehaving_tower. destruct (aget (c_towers c) t) as [s|]; [|exact HD].
-  destruct (dbm_store_misbehaving_proof (c_db c) t l b u g rc) as [d'|e] eqn:Es; cbn; [|exact HD].
-  exact (proj1 (store_proof_spec _ _ _ _ _ _ _ _ HD Es)).
+  destruct (flag_store (c_db c) t l b u g rc) as [d'|e] eqn:Es; cbn; [|exact HD].
+  exact (proj1 (flag_store_spec _ _ _ _ _ _ _ _ HD Es)).
 Qed.
 
 Lemma DbInv_remove_tower c t : DbInv (c_db c) -> DbInv (c_db (fst (wt_remove_tower c t))).
@@ -1672,7 +1704,7 @@ Proof.
 Qed.
 
 Lemma DbInv_set_status c t st : c_db (wt_set_tower_status c t st) = c_db c.
-Proof. unfold wt_set_tower_status. destruct (aget (c_towers c) t); reflexivity. Qed.
+Proof. unfold wt_set_tower_status. destruct (aget (c_towers c) t); [destruct (_ && _)|]; reflexivity. Qed.
 
 Lemma DbInv_sstep c o : DbInv (c_db c) -> DbInv (c_db (fst (sstep c o))).
 Proof.
@@ -2007,8 +2039,8 @@ Proof.
   - unfold seq2. destruct (is_abort _); [apply Hrec|]. apply Hrem; [apply DbInv_add_receipt; exact HD|apply Hrec].
   - unfold seq2. destruct (is_abort _); [apply Hinv|]. apply Hrem; [apply DbInv_add_invalid; exact HD|apply Hinv].
   - unfold wt_flag_misbehaving_tower. destruct (aget (c_towers c) t) as [s|]; [|exact HN].
-    destruct (dbm_store_misbehaving_proof (c_db c) t l sb usig tsig recovered) as [d'|e] eqn:Es; cbn; [|exact HN].
-    destruct (store_proof_spec _ _ _ _ _ _ _ _ HD Es) as [_ Hfr].
+    destruct (flag_store (c_db c) t l sb usig tsig recovered) as [d'|e] eqn:Es; cbn; [|exact HN].
+    destruct (flag_store_spec _ _ _ _ _ _ _ _ HD Es) as [_ Hfr].
     apply (NoOrphan_frame (c_db c) d'); try (apply Hfr; discriminate). exact HN.
   - unfold wt_remove_tower. destruct (aget (c_towers c) t) as [s|]; [|exact HN].
     destruct (dbm_remove_tower_record (c_db c) t) as [d'|e] eqn:Es; cbn; [|exact HN].
